@@ -54,8 +54,10 @@ ASSUMPTIONS = [
     "function and then raise, because on Linux a failing close still releases the descriptor (and GzipFile.close closes "
     "its file object in a finally clause); os.remove failing with ENOENT means the file is really gone (the wrapper "
     "removes it first), with EIO the file stays",
-    "a gzip handle whose owner (generator frame, merging iterator) is dropped is closed by CPython reference counting; "
-    "the harness keeps no reference to exceptions or generators across the measurement",
+    "abandoning an iteration is generator.close() (its finally clause closes the readers and reports a failure); a "
+    "generator that is merely dropped runs the same cleanup in its finalizer, where Python ignores exceptions. Reference "
+    "counting is relied on only for the readers of a _MergingIterator whose constructor raised. A generator the caller "
+    "keeps alive across close() is modelled and measured (descriptors counted while it is alive)",
     "a spill file damaged between spill and merge is modelled by its symptom: the read that hits the damage raises "
     "EOFError (flavour 2 of the schedule); the cases that really truncate a file on disk are judged by the oracle only "
     "(raise, or return every record)",
